@@ -37,7 +37,7 @@ Definition clause_C11 (cfg : config) (cl : list client) (o : op) (x : obs) : N :
       if andb (cf_jar_enabled cfg) (orb (cf_jar_required cfg) (cflag cl i c_jar_required)) then 2 else
       if andb (pk_is_empty (p_challenge p)) (orb (cf_pkce_required cfg) (andb (cf_pkce_enabled cfg) (cflag cl i c_public))) then 4 else
       if andb (cf_openid_required cfg) (negb (contains_openid (p_scopes p))) then 5 else
-      if cf_resource_required cfg then 6 else
+      if andb (cf_resource_required cfg) (no_res (p_resources p)) then 6 else
       if andb (rt_contains (p_resp_type p) "token") (is_nil (p_dpop_jkt p)) then
         (if orb (cf_dpop_required cfg) (andb (cf_dpop_enabled cfg) (cflag cl i c_dpop_required)) then 7 else
          if cf_binding_required cfg then 9 else 0)
